@@ -83,6 +83,10 @@ CHECKS = {
    "import graphs realised as file trees: exhaustively all 512 digraphs with loops on 3 files in three mode/package configurations and all 4096 loop-free digraphs on 4 files in separate mode (thorough: all 65536 on 4 files with loops, random graphs to 12 files); the real Generate runs in child processes under a CPU budget; separate mode is compared with the harness's own DFS cycle oracle, combined mode declaration-by-declaration with generation from the harness's inlined schema plus codec oracles on a sample; dedicated trees check per-file path resolution and single inlining",
    "exhaustive for n<=3 (and loop-free n=4 in separate mode), sampled beyond; cycle errors recognised by their text",
    "runtime monitoring: exhaustive small-graph enumeration with an independent digraph oracle and a differential inlining oracle"),
+ "C19": ("fault_enumeration",
+   "the real bebopc-go and bebopfmt binaries run in scratch directories with a pre-existing sentinel target: input cells (valid, every rejected file of testdata/invalid, validation errors, missing imports, nonexistent, directory, several files formatted twice) x fault cells injected from outside with strace: EVERY k-th openat/write/rename*/close/fsync/... call of a fault-free run fails, and separately the process is SIGKILLed at it, plus RLIMIT_FSIZE; oracle on exit status, printed messages and the target's bytes; successful bebopfmt -w output is re-parsed by the real ReadFile and compared with the original schema",
+   "exhaustive over the system calls a fault-free run makes (per-thread counting; GOMAXPROCS=1), sampled over inputs; inconclusive if ptrace is unavailable",
+   "runtime monitoring: syscall-level fault and crash-point injection (strace) around the real binaries with a file-state oracle"),
 }
 DESIGN = {i: "DESIGN.md section 4, %s" % i for i in CHECKS}
 
